@@ -280,3 +280,57 @@ def run_mid_session(st, calls, res, info, level=2):
         srcb.free(); dstb.free()
     stbuf.free(); tabs.free()
     return outs
+
+
+# ---- shared wiring: every check that claims a theorem about Model.HcMid runs the `mid` correspondence itself
+MID_CORR = ("Model.HcMidApi (LZ4MID_compress + one-shot HC entry points at levels 1-2, LZ4_compress_HC_destSize) == the real functions over call "
+            "histories on one LZ4_streamHC_t (return value, consumed, bytes, both hash tables, end index, dirty flag after every call)")
+
+def mid_gen_cases(rng, tier, scale=1.0):
+    nm = int({"quick": 16, "search": 40, "thorough": 120}[tier] * scale)
+    return [{"bseed": rng.randrange(1 << 48), "count": 10 if i % 8 else 2, "mode": "hcmid", "maxn": 9000 if i % 8 else 70000} for i in range(max(nm, 2))]
+
+def mid_worker(st, ctx):
+    import ctypes
+    from capi import Lib
+    from vlib import Oracle
+    st["midlib"] = Lib(ctx["midstate"]); st["midraw"] = ctypes.CDLL(ctx["midstate"]); st["mid"] = Oracle(name="mid")
+    return st
+
+def mid_history(st, rng, res, info, maxn, judge):
+    """HC levels 1-2 (LZ4MID): fast-reset one-shot calls and destSize calls on one LZ4_streamHC_t, model == code after every
+    call; judge(kind, src, cap, r, consumed, out) -> error string or None decides the property on every result"""
+    import gens
+    calls = []
+    for _ in range(rng.choice([1, 2, 3, 5])):
+        n = rng.choice([0, 1, 5, 12, 13, 14, 20, 100, 1000, 3000, 4096, 9000]) if maxn < 20000 else rng.choice([100, 3000, 20000, 65536 + 40, 70000])
+        if rng.random() < 0.3:
+            n = rng.randrange(0, min(maxn, 9000))
+        kind = rng.choice(gens.KINDS)
+        src = gens.data(rng, kind, n)
+        if calls and rng.random() < 0.5:
+            prev = calls[-1][1]
+            src = (prev[:len(src) // 2] + src)[:n]
+        b = bound(n)
+        if rng.random() < 0.3:
+            calls.append(("ds", src, rng.choice([1, 2, 5, 12, 13, 20, n // 3 + 1, n // 2 + 7, b, rng.randrange(1, b + 2)])))
+        else:
+            calls.append(("fr", src, rng.choice([b, b, b + 5, max(0, b - 1), n // 2 + 4, rng.randrange(0, b + 2)])))
+    level = rng.choice([1, 2])
+    outs = run_mid_session(st, calls, res, info, level=level)
+    for (kind, src, r, consumed, out), (_, _, cap) in zip(outs, calls):
+        res["stats"]["variant_mid_" + kind] += 1
+        err = judge(kind, src, cap, r, consumed, out)
+        if err:
+            res["fails"].append({"status": "prop_fail", "what": "LZ4MID (level %d, %s): %s" % (level, kind, err),
+                                 "detail": dict(info, sizes=[len(c[1]) for c in calls], caps=[c[2] for c in calls])})
+        if r > 0 and len(out) < consumed:
+            res["keys"].add(key_of(src, "mid" + kind, level, len(out)))
+
+def run_mid_case(st, case, judge):
+    import random
+    rng = random.Random(case["bseed"])
+    res = new_res()
+    for j in range(case["count"]):
+        mid_history(st, rng, res, {"bseed": case["bseed"], "j": j, "mid": 1}, case["maxn"], judge)
+    return finish(res, "hcmid")
